@@ -256,7 +256,7 @@ fn c03_positions(quick: bool) -> Vec<Pos> {
     v.extend(many_move_positions());
     v.extend(perft_roots().into_iter().map(|x| x.1).filter(|p| p.piece_count() <= 12));
     let fams = [f3(), fcastle(false), fep(false), fpromo(), fmate()];
-    let (stride, step) = if quick { (29, 37) } else { (7, 11) };
+    let (stride, step) = if quick { (29, 47) } else { (7, 11) };
     v.extend(collect_families(&fams, stride).into_iter().step_by(step));
     v
 }
@@ -453,7 +453,7 @@ pub fn run_c03(ctx: &Ctx) -> i32 {
         for k in [QUEEN, ROOK] {
             for (i, (p, v)) in tb.positions(k).enumerate() {
                 // the bare king to move (lost or drawn for it)
-                if !p.wtm && matches!(v, Val::Loss(_) | Val::Draw) && p.has_legal_move() && i % (if quick { 3989 } else { 149 }) == 0 {
+                if !p.wtm && matches!(v, Val::Loss(_) | Val::Draw) && p.has_legal_move() && i % (if quick { 4999 } else { 149 }) == 0 {
                     parents.push(p.mirror());
                     parents.push(p);
                 }
@@ -903,6 +903,13 @@ pub fn promo_key_family(stride: usize) -> Vec<Pos> {
 pub fn run_c06(ctx: &Ctx) -> i32 {
     quiet_panics();
     let quick = ctx.quick();
+    let t_part = std::cell::Cell::new(std::time::Instant::now());
+    let lap = |name: &str| {
+        if std::env::var("VERIF_TIMING").is_ok() {
+            eprintln!("timing {}: {:?}", name, t_part.get().elapsed());
+        }
+        t_part.set(std::time::Instant::now());
+    };
     let tb = Tablebase::build(threads());
     let st = oracle::selftest::tb_selftest(&tb);
     assert!(st.iter().all(|x| x.1), "tablebase self test failed: {:?}", st);
@@ -1005,9 +1012,10 @@ pub fn run_c06(ctx: &Ctx) -> i32 {
             }
         }
     });
+    lap("tablebase part");
     // Fmate / 4-man positions through the exhaustive solver
     let no_draw = |_: &Pos| false;
-    let fm: Vec<Pos> = collect_families(&[fmate()], if quick { 5 } else { 1 }).into_iter().step_by(if quick { 23 } else { 3 }).collect();
+    let fm: Vec<Pos> = collect_families(&[fmate()], if quick { 5 } else { 1 }).into_iter().step_by(if quick { 31 } else { 3 }).collect();
     par_for(ctx, &fm, |p, l| {
         if !p.has_legal_move() {
             return;
@@ -1047,10 +1055,11 @@ pub fn run_c06(ctx: &Ctx) -> i32 {
             }
         }
     });
+    lap("Fmate part");
     // mates whose only keys are promotions (and a sibling promotion of the same pawn step is
-    // not a key): quick takes every 6th placement of the family, thorough all of them
+    // not a key): quick takes every 9th placement of the family, thorough all of them
     {
-        let list: Vec<Pos> = promo_key_family(std::env::var("VERIF_PROMO_STRIDE").ok().and_then(|x| x.parse().ok()).unwrap_or(if quick { 6 } else { 1 }));
+        let list: Vec<Pos> = promo_key_family(std::env::var("VERIF_PROMO_STRIDE").ok().and_then(|x| x.parse().ok()).unwrap_or(if quick { 9 } else { 1 }));
         // quick: only the under-promotion keys (the queen promotion of that pawn step is
         // legal, looks best at face value, and is not a key)
         let list: Vec<Pos> = if quick { list.into_iter().filter(|p| mate_preserving_moves(p, 3, &no_draw).iter().all(|m| m.promo != QUEEN)).collect() } else { list };
@@ -1082,6 +1091,7 @@ pub fn run_c06(ctx: &Ctx) -> i32 {
             }
         });
     }
+    lap("promotion part");
     // positions with many men: any mate claim with a stated distance (score above the
     // terminal threshold encodes the ply of the mate) must be a forced mate within that many
     // plies by the exhaustive solver, and the first move must keep it
@@ -1171,9 +1181,11 @@ pub fn run_c06(ctx: &Ctx) -> i32 {
             }
         });
     }
+    lap("corpus part");
     let ex = all.iter().find(|(_, v)| matches!(v, Val::Win(3))).unwrap();
     ctx.sample(json!({"position": ex.0.fen(), "tablebase": "side to move mates in 3 plies", "searched_depths": [3, 4, 5], "checked": "final evaluation >= POS_INF and the first move's successor is lost for the opponent per tablebase"}));
     let schedules = loom_part(ctx, crate::loomrun::jobs_c06(quick));
+    lap("loom part");
     let exh = ctx.no_caps();
     finish(
         ctx,
@@ -1181,7 +1193,7 @@ pub fn run_c06(ctx: &Ctx) -> i32 {
         ctx.get("searches") + schedules,
         ctx.get("searches") + schedules,
         exh,
-        &format!("{}{}", "tablebase families (quick: all of KRK strided 1/29 for soundness + every KQK/KRK win in <= 3 plies for completeness; thorough: all of KQK, KRK, KPK, wins in <= 5 plies), both colours as the strong side; soundness: depths 1..2 (thorough 4), every BestMove with evaluation >= POS_INF must be a tablebase win whose first move leads to a tablebase loss for the opponent; completeness: mate in n plies searched at depth n, n+1, n+2 x seeds must end with evaluation >= POS_INF and a mate-preserving first move; Fmate sub-family judged by the exhaustive solver; promotion keys: the family K+P(7th rank)+{Q,R,B,N} v lone K on an edge square, all positions with a mate in exactly 3 plies whose only keys are promotions while a sibling promotion of the same pawn step fails (quick: every 6th placement, the positions whose keys are all under-promotions, at depths 3..4; thorough: all at 3..5 x seeds); many-men corpus (adversarial, perft and many-move roots and their successors, and the positions of the recorded games in /repo/book at plies 16..60): every mate claim with a stated distance <= 3 (thorough 4) plies must be a forced mate within that distance by the solver", LOOM_RULE),
+        &format!("{}{}", "tablebase families (quick: all of KRK strided 1/29 for soundness + every KQK/KRK win in <= 3 plies for completeness; thorough: all of KQK, KRK, KPK, wins in <= 5 plies), both colours as the strong side; soundness: depths 1..2 (thorough 4), every BestMove with evaluation >= POS_INF must be a tablebase win whose first move leads to a tablebase loss for the opponent; completeness: mate in n plies searched at depth n, n+1, n+2 x seeds must end with evaluation >= POS_INF and a mate-preserving first move; Fmate sub-family judged by the exhaustive solver; promotion keys: the family K+P(7th rank)+{Q,R,B,N} v lone K on an edge square, all positions with a mate in exactly 3 plies whose only keys are promotions while a sibling promotion of the same pawn step fails (quick: every 9th placement, the positions whose keys are all under-promotions, at depths 3..4; thorough: all at 3..5 x seeds); many-men corpus (adversarial, perft and many-move roots and their successors, and the positions of the recorded games in /repo/book at plies 16..60): every mate claim with a stated distance <= 3 (thorough 4) plies must be a forced mate within that distance by the solver", LOOM_RULE),
         ASSUME,
     )
 }
